@@ -1,0 +1,18 @@
+//go:build verif && verifenc
+
+package qr
+
+// VerifBitStream exposes the data bit stream (mode indicator, character
+// count, payload, terminator and pad codewords) and the chosen version to the
+// conformance harness.
+func VerifBitStream(content string, level ErrorCorrectionLevel, mode Encoding) (bits []bool, version int, err error) {
+	bl, vi, err := mode.getEncoder()(content, level)
+	if err != nil {
+		return nil, 0, err
+	}
+	bits = make([]bool, bl.Len())
+	for i := range bits {
+		bits[i] = bl.GetBit(i)
+	}
+	return bits, int(vi.Version), nil
+}
